@@ -3,6 +3,7 @@
 from __future__ import annotations
 
 import ast
+import re
 
 from ..astutil import FuncNode, call_name, calls_in, dotted, own_exprs, test_atoms, unparse, walk_local
 from ..cfg import no_exc
@@ -22,12 +23,17 @@ R = Registry(
         "is selected by the same selector the underlying call receives (every member only for an "
         "argument-less call or under a guard on start, stop and step), events after the call carry the "
         "returned item; pop-style wrappers skip the remove event only under a test decided before the "
-        "call (never returned-item-vs-argument, never membership in the mutated collection)."
+        "call and fire it on the 'was a member' outcome; every wrapper applies its operation to self on every "
+        "normal path and in every loop iteration; pre-mutation remove events are fired for members only "
+        "(membership / not-None outcome) and on every path that removes; the no-mutation event only for an "
+        "object that already is the member; every wrapper carries the _sa_instrumented marker and the places "
+        "that instrument test it (no double wrapping); pop/popitem/setdefault return the member; the "
+        "NO_ARG sentinel of optional parameters never reaches the underlying call."
     ),
     not_decided=(
-        "index/slice arithmetic of list.__setitem__/__delitem__ (value level), the conditions under which "
-        "a pre-mutation event is skipped (`if key in self`, `existing is not None`), return values and "
-        "exceptions versus the builtin, custom collection classes."
+        "index/slice arithmetic of list.__setitem__/__delitem__ (value level: negative / out-of-range / "
+        "reversed slices), argument order inside delegations, exceptions versus the builtin other than "
+        "the sentinel handling, custom collection classes."
     ),
 )
 
@@ -353,10 +359,13 @@ def r3(ctx):
                     and isinstance(par.test, ast.UnaryOp) and isinstance(par.test.op, ast.Not)
                     and isinstance(par.test.operand, ast.Call)
                     and "binops_check" in (call_name(par.test.operand) or "")
-                    and any(isinstance(x, ast.Name) and x.id in params for x in par.test.operand.args)
+                    and len(par.test.operand.args) == 2
+                    and isinstance(par.test.operand.args[0], ast.Name) and par.test.operand.args[0].id == "self"
+                    and isinstance(par.test.operand.args[1], ast.Name) and par.test.operand.args[1].id in params
                 )
                 if not good:
-                    problems.append("NotImplemented is returned outside a negated _set_binops_check_* test of the operand")
+                    problems.append("NotImplemented is returned outside a negated `_set_binops_check_*(self, <operand>)` test "
+                                    "(receiver first, operand second)")
             if t == "set" and not ni:
                 problems.append(f"set {op} lacks the operand type check (plain iterables must give NotImplemented/TypeError like set)")
             ctx.check(not problems, key, "; ".join(problems), f"agrees with {s}: {a}", loc)
@@ -640,6 +649,29 @@ def r4(ctx):
             ctx.check(not problems, key, "; ".join(dict.fromkeys(problems)), ", ".join(dict.fromkeys(how)), loc)
 
 
+def _resolved_atoms(test, pol, env):
+    """conjunctive atoms of a branch outcome; a bare local flag assigned once from a test is replaced by that test"""
+    out = set()
+    for txt, apol in test_atoms(test, pol):
+        defs = env.get(txt, []) if txt.isidentifier() else []
+        if len(defs) == 1 and defs[0][0] == "assign" and defs[0][1] is not None:
+            out |= set(test_atoms(defs[0][1], apol))
+        else:
+            out.add((txt, apol))
+    return out
+
+
+def _atoms_at(g, nid, env):
+    out = set()
+    for tst, pol in g.edge_guards(nid):
+        out |= _resolved_atoms(tst, pol, env)
+    return out
+
+
+_IN_SELF = re.compile(r"^(.+) in self$")
+_IS_NONE = re.compile(r"^(.+) is None$")
+
+
 def _names_read(e):
     return {n.id for n in ast.walk(e) if isinstance(n, ast.Name) and isinstance(n.ctx, ast.Load)}
 
@@ -722,13 +754,22 @@ def r5(ctx):
                         "after the underlying call already removed the member")
                 else:
                     how.append(f"`{unparse(test)}` decided before the call" if not late else f"`{unparse(test)}`")
-            ctx.check(not problems, key, "; ".join(problems), "event skipped only under " + ", ".join(how), loc)
+            for dn in dels_after:
+                for txt, pol in _atoms_at(g, dn, org.env):
+                    m_ = _IN_SELF.match(txt)
+                    if m_ and not pol:
+                        problems.append(
+                            f"the remove event after the call is on the branch where `{m_.group(1)}` was NOT a member "
+                            f"(`{txt}` is false there): members that leave fire no event, absent keys do")
+            ctx.check(not problems, key, "; ".join(dict.fromkeys(problems)), "event skipped only under " + ", ".join(how), loc)
 
 
 #: (wrapper key, test text, outcome) whose branch legitimately ends the wrapper without touching the collection
 NOOP_BRANCHES = {
     ("orm/collections.py::_list_decorators.__setitem__", "value is self", True):
         "coll[:] = coll leaves a list unchanged (builtin semantics); nothing to apply, no event",
+    ("orm/collections.py::_list_decorators.__setitem__", "len(self) > start", False):
+        "slice assignment past the end of the list: nothing left to delete in this iteration",
 }
 
 
@@ -816,11 +857,38 @@ def r6(ctx):
             def edge_ok(a, b, lab):
                 return lab != "exc" and (a, lab) not in cut
 
+            problems = []
             wit = g.witness([g.entry], [g.exit], avoid=markers, edge_ok=edge_ok)
-            ctx.check(wit is None, key,
-                      f"{t}.{mname}: a normal path through the wrapper neither calls the underlying {t}.{mname} nor an "
-                      f"instrumented sibling: the collection is left unchanged (or events were fired for nothing): "
-                      + " -> ".join(g.describe_path(wit or [])[-4:]),
+            if wit is not None:
+                problems.append(
+                    f"{t}.{mname}: a normal path through the wrapper neither calls the underlying {t}.{mname} nor an "
+                    f"instrumented sibling: the collection is left unchanged (or events were fired for nothing): "
+                    + " -> ".join(g.describe_path(wit)[-4:]))
+            # the operation / the events are applied to THIS collection
+            for kind_ in ev:
+                for _, c in ev[kind_]:
+                    if not (c.args and isinstance(c.args[0], ast.Name) and c.args[0].id == "self"):
+                        problems.append(f"event helper call `{unparse(c)[:60]}` does not pass `self` as the collection")
+            for _, uc in under:
+                if not (uc.args and isinstance(uc.args[0], ast.Name) and uc.args[0].id == "self"):
+                    problems.append(f"underlying call `{unparse(uc)[:60]}` is not applied to `self`")
+            # every iteration of a loop does something: applies the operation or fires an event
+            ev_ids = {i for kind_ in ev for i, _ in ev[kind_]}
+            for n in g.nodes:
+                if n.kind != "for" or n.copy:
+                    continue
+                body_heads = [b for b, lab in g.succ[n.id] if lab == "true"]
+                doing = (markers - {n.id}) | ev_ids
+                starts = [b for b in body_heads if b not in doing]
+                if not starts:
+                    continue
+                w2 = g.witness(starts, [n.id], avoid=doing, edge_ok=edge_ok) if n.id not in starts else [n.id]
+                if w2 is not None:
+                    problems.append(
+                        f"{t}.{mname}: an iteration of `for {unparse(n.stmt.target)} in {unparse(n.stmt.iter)[:40]}` can complete "
+                        "without applying the operation or firing an event (the element is silently skipped): "
+                        + " -> ".join(g.describe_path(w2)[-3:]))
+            ctx.check(not problems, key, "; ".join(dict.fromkeys(problems)),
                       f"{len(markers)} applying statement(s) cover every normal path", loc,
                       g.describe_path(wit) if wit else None)
 
@@ -862,19 +930,23 @@ def r7(ctx):
                 n_pre += 1
                 if len(c.args) < 2:
                     continue
+                atoms = _atoms_at(g, nid, org.env)
+                item_txt = unparse(c.args[1])
+                for txt, pol in atoms:
+                    m_ = _IN_SELF.match(txt)
+                    if m_ and not pol:
+                        problems.append(
+                            f"{t}.{mname}: the remove event `{unparse(c)[:50]}` is on the branch where `{m_.group(1)}` is NOT a "
+                            "member: members that leave fire no event")
+                    m_ = _IS_NONE.match(txt)
+                    if m_ and pol and m_.group(1) == item_txt:
+                        problems.append(
+                            f"{t}.{mname}: the remove event is fired only when the item `{item_txt}` is None: real members "
+                            "that are replaced/removed fire no event")
                 for p in org.item(c.args[1], g.nodes[nid].stmt):
                     if p.kind != "sel" or not p.direct:
                         how.append("item read from the collection")
                         continue
-                    atoms = set()
-                    for tst, pol in g.edge_guards(nid):
-                        for txt, apol in test_atoms(tst, pol):
-                            # a local flag computed from a membership test
-                            defs = org.env.get(txt, []) if txt.isidentifier() else []
-                            if len(defs) == 1 and defs[0][0] == "assign":
-                                atoms |= set(test_atoms(defs[0][1], apol))
-                            else:
-                                atoms.add((txt, apol))
                     if (f"{p.sel} in self", True) in atoms:
                         how.append(f"guarded by `{p.sel} in self`")
                     else:
@@ -885,6 +957,32 @@ def r7(ctx):
                             "announced its removal"
                             + (f" (guards found: {sorted(atoms)})" if atoms else ""))
             if n_pre:
+                # ... and for every member: the underlying removal is reached without a remove event only through the
+                # 'not a member' / 'is None' outcome of a test
+                del_ids = {i for i, _ in ev["del"]}
+                for n in g.nodes:
+                    if n.kind == "for" and not n.copy and any(
+                            call_name(c_) in helpers and helpers[call_name(c_)] == "del"
+                            for st in n.stmt.body for c_ in calls_in(st)):
+                        del_ids.add(n.id)
+                cut = set()
+                for n in g.nodes:
+                    if n.kind != "test":
+                        continue
+                    for lab in ("true", "false"):
+                        for txt, pol in _resolved_atoms(n.stmt.test, lab == "true", org.env):
+                            if (_IN_SELF.match(txt) and not pol) or (_IS_NONE.match(txt) and pol):
+                                cut.add((n.id, lab))
+
+                def edge_ok(a, b, lab):
+                    return lab != "exc" and (a, lab) not in cut
+
+                for uid, uc in under:
+                    wit = g.witness([g.entry], [uid], avoid=del_ids, edge_ok=edge_ok)
+                    if wit is not None:
+                        problems.append(
+                            f"{t}.{mname}: a normal path reaches the underlying `{unparse(uc)}` without a remove event although "
+                            "no test established that nothing is being removed: " + " -> ".join(g.describe_path(wit)[-3:]))
                 ctx.check(not problems, key, "; ".join(dict.fromkeys(problems)), ", ".join(dict.fromkeys(how)), loc,
                           nontrivial=any("guarded" in h for h in how) or bool(problems))
             else:
@@ -900,7 +998,7 @@ def _marks_param(fn_node):
         return False
     p0 = fn_node.args.args[0].arg
     for st in fn_node.body:
-        if isinstance(st, ast.Assign) and isinstance(st.value, ast.Constant) and st.value.value is True:
+        if isinstance(st, ast.Assign):  # the consumers test hasattr(): any stored value marks
             for tg in st.targets:
                 if isinstance(tg, ast.Attribute) and tg.attr == MARK and isinstance(tg.value, ast.Name) and tg.value.id == p0:
                     return True
@@ -910,7 +1008,7 @@ def _marks_param(fn_node):
 def _marked_in(body, wname, helpers_):
     """is the function named `wname` marked by a top-level statement of `body`"""
     for st in body:
-        if isinstance(st, ast.Assign) and isinstance(st.value, ast.Constant) and st.value.value is True:
+        if isinstance(st, ast.Assign):
             for tg in st.targets:
                 if isinstance(tg, ast.Attribute) and tg.attr == MARK and isinstance(tg.value, ast.Name) and tg.value.id == wname:
                     return "direct store"
@@ -982,6 +1080,159 @@ def r8(ctx):
                   f"`not hasattr(getattr(cls, {role}), '{MARK}')`: the canned {role} wrapper is wrapped a second time and its "
                   "event fires twice", "guarded by the marker test", f"{arr.module.path}:{n.lineno}")
     ctx.require(n_roles >= 2, f"{arr.key}: implicit appender/remover instrumentation not found")
+
+
+@R.rule("C38-R9", floor=3, template="T-GUARD",
+        desc="the no-mutation event (`__set_wo_mutation`: 'this object was set again, nothing changed') is fired only for "
+             "an object that is already the member: the item was read from the collection, or the event is dominated "
+             "by a positive membership test (set: `x in self`; dict: `k in self` and `self[k] is x`) -- otherwise a new "
+             "or replacing member enters with no append event")
+def r9(ctx):
+    facs = _interfaces(ctx)
+    helpers = _event_helpers(ctx)
+    effects = load("python_mutator_effects.json")
+    for t in TYPES:
+        fac = facs[t]
+        decs = _decorators(ctx, fac)
+        adders = {m for m, e in effects[t].items() if e in ("add", "both")}
+        for mname in sorted(adders | set(decs)):
+            key = f"{fac.key}.{mname}:no-mutation-event"
+            if mname not in decs:
+                ctx.ok(key, "no wrapper to examine (missing decorator is reported by C38-R1)", nontrivial=False)
+                continue
+            d, w, fnparam = decs[mname]
+            g = ctx.cfg(w)
+            ev, under = _wrapper_calls(g, helpers, fnparam)
+            if not ev["set_wo"]:
+                continue
+            loc = f"{fac.module.path}:{w.lineno}"
+            org = _Origin(w, fnparam)
+            problems, how = [], []
+            for nid, c in ev["set_wo"]:
+                ctx.require(len(c.args) >= 2, f"{key}: `{unparse(c)}` has no item argument")
+                it = unparse(c.args[1])
+                provs = org.item(c.args[1], g.nodes[nid].stmt)
+                if provs and all(p.kind in ("sel", "whole") and not p.direct for p in provs):
+                    how.append(f"`{it}` read from the collection")
+                    continue
+                atoms = _atoms_at(g, nid, org.env)
+                present = [m_.group(1) for txt, pol in atoms for m_ in [_IN_SELF.match(txt)] if m_ and pol]
+                if t == "dict":
+                    ok = any((f"self[{k}] is {it}", True) in atoms for k in present)
+                    want = f"`<k> in self` and `self[<k>] is {it}`"
+                else:
+                    ok = it in present
+                    want = f"`{it} in self`"
+                if ok:
+                    how.append(f"`{it}` under {want}")
+                else:
+                    problems.append(
+                        f"{t}.{mname}: `{unparse(c)[:60]}` announces 'set again, nothing changed' without {want} being "
+                        f"established (guards: {sorted(a for a, _ in atoms)[:4]}): a value that is not yet the member is "
+                        "stored or skipped with no append event")
+            ctx.check(not problems, key, "; ".join(dict.fromkeys(problems)), ", ".join(dict.fromkeys(how)), loc)
+
+
+@R.rule("C38-R10", floor=5, template="T-PATH",
+        desc="wrappers of builtins that return the affected member (pop, popitem, setdefault) return a value on every "
+             "normal path -- never a bare return / None / falling off the end -- and the pop family returns what the "
+             "underlying call returned")
+def r10(ctx):
+    facs = _interfaces(ctx)
+    effects = load("python_mutator_effects.json")
+    for t in TYPES:
+        fac = facs[t]
+        decs = _decorators(ctx, fac)
+        for mname in sorted(effects["returns_value"][t]):
+            key = f"{fac.key}.{mname}:returns-member"
+            if mname not in decs:
+                ctx.ok(key, "no wrapper to examine (missing decorator is reported by C38-R1)", nontrivial=False)
+                continue
+            d, w, fnparam = decs[mname]
+            loc = f"{fac.module.path}:{w.lineno}"
+            g = ctx.cfg(w)
+            org = _Origin(w, fnparam)
+            rets = [r_ for r_ in walk_local(w) if isinstance(r_, ast.Return)]
+            problems = []
+            for r_ in rets:
+                if r_.value is None or (isinstance(r_.value, ast.Constant) and r_.value.value is None):
+                    problems.append(f"{t}.{mname} returns None at line {r_.lineno} where the builtin returns the member")
+            if g.exit in g.reachable([g.entry], avoid=[i for r_ in rets for i in g.nodes_for(r_)], edge_ok=no_exc):
+                problems.append(f"{t}.{mname} can fall off the end (returns None) where the builtin returns the member")
+            if effects[t].get(mname) in ("remove", "both"):
+                for r_ in rets:
+                    if r_.value is None:
+                        continue
+                    provs = org.item(r_.value, r_)
+                    if not (provs and all(p.kind == "returned" for p in provs)):
+                        problems.append(f"{t}.{mname} returns `{unparse(r_.value)}`, which is not the value the underlying "
+                                        "call returned")
+            ctx.check(not problems, key, "; ".join(dict.fromkeys(problems)), f"{len(rets)} return(s) carry the member", loc)
+
+
+@R.rule("C38-R11", floor=2, template="T-GUARD",
+        desc="an optional wrapper parameter whose default is a sentinel (NO_ARG) is used -- forwarded to the underlying "
+             "call, iterated, subscripted -- only where `<p> is <sentinel>` is false, and an underlying call that "
+             "omits it is made only where it is true (builtin behaviour with and without the optional argument)")
+def r11(ctx):
+    facs = _interfaces(ctx)
+    effects = load("python_mutator_effects.json")
+    for t in TYPES:
+        fac = facs[t]
+        decs = _decorators(ctx, fac)
+        for mname in sorted(set(effects[t]) | set(decs)):
+            if mname not in decs:
+                ctx.ok(f"{fac.key}.{mname}:sentinel", "no wrapper to examine (missing decorator is reported by C38-R1)",
+                       nontrivial=False)
+                continue
+            d, w, fnparam = decs[mname]
+            a = w.args
+            pos = a.posonlyargs + a.args
+            sentinels = {}
+            for arg, dflt in zip(pos[len(pos) - len(a.defaults):], a.defaults):
+                if isinstance(dflt, ast.Name) and dflt.id.isupper():
+                    sentinels[arg.arg] = dflt.id
+            for arg, dflt in zip(a.kwonlyargs, a.kw_defaults):
+                if isinstance(dflt, ast.Name) and dflt.id.isupper():
+                    sentinels[arg.arg] = dflt.id
+            if not sentinels:
+                continue
+            g = ctx.cfg(w)
+            org = _Origin(w, fnparam)
+            pm = fac.module.parents()
+            for pname, sent in sorted(sentinels.items()):
+                key = f"{fac.key}.{mname}:{pname}:sentinel"
+                loc = f"{fac.module.path}:{w.lineno}"
+                problems = []
+                atom = f"{pname} is {sent}"
+                uses = []
+                for n in walk_local(w):
+                    if isinstance(n, ast.Name) and n.id == pname and isinstance(n.ctx, ast.Load):
+                        par = pm.get(n)
+                        if isinstance(par, ast.Compare) and len(par.ops) == 1 and isinstance(par.ops[0], (ast.Is, ast.IsNot)) \
+                                and {unparse(par.left), unparse(par.comparators[0])} == {pname, sent}:
+                            continue  # the sentinel test itself
+                        uses.append(n)
+                for n in uses:
+                    ok = False
+                    for nid in g.nodes_containing(n):
+                        if (atom, False) in _atoms_at(g, nid, org.env):
+                            ok = True
+                    if not ok:
+                        problems.append(f"`{pname}` is used at line {n.lineno} without `{atom}` being known false: the "
+                                        f"sentinel {sent} itself would be forwarded / iterated")
+                under = [c for c in calls_in(w) if call_name(c) == fnparam]
+                passing = [c for c in under if any(isinstance(x, ast.Name) and x.id == pname for x in ast.walk(c))]
+                if passing:
+                    for c in under:
+                        if c in passing:
+                            continue
+                        ok = any((atom, True) in _atoms_at(g, nid, org.env) for nid in g.nodes_containing(c))
+                        if not ok:
+                            problems.append(f"`{unparse(c)}` omits `{pname}` without `{atom}` being known true: a supplied "
+                                            f"{pname} is ignored")
+                ctx.check(not problems, key, "; ".join(dict.fromkeys(problems)),
+                          f"{len(uses)} use(s) of {pname} under `{pname} is not {sent}`", loc)
 
 
 # --------------------------------------------------------------------------------- self-test
@@ -1112,7 +1363,86 @@ R.mutant("implicit-remover-without-marker-test", COLL,
          sub("    elif roles[\"remover\"] not in methods and not hasattr(\n        getattr(cls, roles[\"remover\"]), \"_sa_instrumented\"\n    ):\n",
              "    elif roles[\"remover\"] not in methods:\n"),
          "C38-R8")
+# R5 (event side)
+R.mutant("dict-pop-event-when-key-was-absent", COLL,
+         sub("            if _to_del:\n                __del(self, item, None, key)\n", "            if not _to_del:\n                __del(self, item, None, key)\n"),
+         "C38-R5")
+# R6 (loops, receiver)
+R.mutant("dict-update-pairs-not-stored", COLL,
+         sub("                        if key not in self or self[key] is not value:\n                            self[key] = value\n",
+             "                        if key not in self or self[key] is not value:\n                            pass\n"),
+         "C38-R6")
+R.mutant("list-setitem-slice-old-members-kept", COLL,
+         sub("                        if len(self) > start:\n                            del self[start]\n",
+             "                        if len(self) > start:\n                            pass\n"),
+         "C38-R6")
+R.mutant("set-add-underlying-call-on-value", COLL,
+         sub("            # testlib.pragma exempt:__hash__\n            fn(self, value)\n\n        _tidy(add)\n",
+             "            # testlib.pragma exempt:__hash__\n            fn(value, self)\n\n        _tidy(add)\n"),
+         "C38-R6")
+# R7 (polarity, every path)
+R.mutant("dict-delitem-event-only-for-absent-key", COLL,
+         sub("            if key in self:\n                __del(self, self[key], _sa_initiator, key)\n            fn(self, key)\n",
+             "            if key not in self:\n                __del(self, self[key], _sa_initiator, key)\n            fn(self, key)\n"),
+         "C38-R7")
+R.mutant("list-setitem-event-only-for-none", COLL,
+         sub("                if existing is not None:\n                    __del(self, existing, None, index)\n",
+             "                if existing is None:\n                    __del(self, existing, None, index)\n"),
+         "C38-R7")
+R.mutant("list-delitem-scalar-no-remove-event", COLL,
+         sub("                item = self[index]\n                __del(self, item, None, index)\n                fn(self, index)\n",
+             "                item = self[index]\n                fn(self, index)\n"),
+         "C38-R7")
+# R9
+R.mutant("set-add-branches-swapped", COLL,
+         sub("            if value not in self:\n                value = __set(self, value, _sa_initiator, NO_KEY)\n            else:\n                __set_wo_mutation(self, value, _sa_initiator)\n",
+             "            if value in self:\n                value = __set(self, value, _sa_initiator, NO_KEY)\n            else:\n                __set_wo_mutation(self, value, _sa_initiator)\n"),
+         "C38-R9")
+R.mutant("dict-update-kw-replaced-value-not-stored", COLL,
+         sub("                if key not in self or self[key] is not kw[key]:\n", "                if key not in self:\n"),
+         "C38-R9")
+R.mutant("dict-update-pairs-or-becomes-and", COLL,
+         sub("                        if key not in self or self[key] is not value:\n", "                        if key not in self and self[key] is not value:\n"),
+         "C38-R9")
+# R10
+R.mutant("dict-pop-returns-nothing", COLL,
+         sub("            if _to_del:\n                __del(self, item, None, key)\n            return item\n", "            if _to_del:\n                __del(self, item, None, key)\n"),
+         "C38-R10")
+R.mutant("set-pop-returns-none", COLL,
+         sub("            __del(self, item, None, NO_KEY)\n            return item\n", "            __del(self, item, None, NO_KEY)\n            return None\n"),
+         "C38-R10")
+R.mutant("dict-setdefault-existing-not-returned", COLL,
+         sub("                    __set_wo_mutation(self, value, None)\n\n                return value\n", "                    __set_wo_mutation(self, value, None)\n"),
+         "C38-R10")
+# R11
+R.mutant("dict-pop-sentinel-test-inverted", COLL,
+         sub("            if default is NO_ARG:\n                item = fn(self, key)\n", "            if default is not NO_ARG:\n                item = fn(self, key)\n"),
+         "C38-R11")
+R.mutant("dict-update-iterates-sentinel", COLL,
+         sub("            if __other is not NO_ARG:\n                if hasattr(__other, \"keys\"):\n", "            if __other is NO_ARG:\n                if hasattr(__other, \"keys\"):\n"),
+         "C38-R11")
+# R3 (argument order of the operand check)
+R.mutant("set-iand-binop-check-args-swapped", COLL,
+         sub("        def __iand__(self, other):\n            if not _set_binops_check_strict(self, other):\n",
+             "        def __iand__(self, other):\n            if not _set_binops_check_strict(other, self):\n"),
+         "C38-R3")
 # benign
+R.mutant("benign-list-remove-membership-guard", COLL,
+         sub("            __del(self, value, _sa_initiator, NO_KEY)\n            # testlib.pragma exempt:__eq__\n            fn(self, value)\n",
+             "            # testlib.pragma exempt:__eq__\n            if value in self:\n                __del(self, value, _sa_initiator, NO_KEY)\n            # testlib.pragma exempt:__eq__\n            fn(self, value)\n"),
+         None)
+R.mutant("benign-tidy-marker-any-value", COLL,
+         sub("    def _tidy(fn):\n        fn._sa_instrumented = True\n        fn.__doc__ = getattr(dict, fn.__name__).__doc__\n",
+             "    def _tidy(fn):\n        fn._sa_instrumented = 1\n        fn.__doc__ = getattr(dict, fn.__name__).__doc__\n"),
+         None)
+R.mutant("benign-dict-pop-sentinel-test-other-way", COLL,
+         sub("            if default is NO_ARG:\n                item = fn(self, key)\n            else:\n                item = fn(self, key, default)\n",
+             "            if default is not NO_ARG:\n                item = fn(self, key, default)\n            else:\n                item = fn(self, key)\n"),
+         None)
+R.mutant("benign-set-add-present-flag", COLL,
+         sub("            if value not in self:\n                value = __set(self, value, _sa_initiator, NO_KEY)\n            else:\n                __set_wo_mutation(self, value, _sa_initiator)\n",
+             "            present = value in self\n            if present:\n                __set_wo_mutation(self, value, _sa_initiator)\n            else:\n                value = __set(self, value, _sa_initiator, NO_KEY)\n"),
+         None)
 R.mutant("benign-dict-pop-marked-directly", COLL,
          sub("            if _to_del:\n                __del(self, item, None, key)\n            return item\n\n        _tidy(pop)\n        return pop\n",
              "            if _to_del:\n                __del(self, item, None, key)\n            return item\n\n        pop._sa_instrumented = True\n        pop.__doc__ = dict.pop.__doc__\n        return pop\n"),
